@@ -6,7 +6,6 @@ import (
 	"encoding/binary"
 	"net/http"
 	"net/http/httptest"
-	"sync"
 	"testing"
 	"time"
 
@@ -236,45 +235,23 @@ func FuzzHttpRequest(f *testing.F) {
 	})
 }
 
-// The client-role fuzz targets share one hostile listener per fuzz worker process (a listener per execution would
-// exhaust the ephemeral ports of the machine within seconds); the script is swapped before every execution.
-var fuzzHostile struct {
-	once sync.Once
-	hs   *hostileServer
-	mu   sync.Mutex
-	segs []segment
-	err  interface{}
-	last time.Time
-}
+// fuzzClient runs one execution of a client-role target against the process' hostile listener.
+var fuzzLast time.Time
 
 func fuzzClient(t *testing.T, segs []segment, pull func(addr string), marker string) {
-	fh := &fuzzHostile
-	fh.once.Do(func() {
-		defer func() { fh.err = recover() }()
-		fh.hs = newHostileServerSeg(func(int) []segment {
-			fh.mu.Lock()
-			defer fh.mu.Unlock()
-			return fh.segs
-		})
-	})
-	if fh.hs == nil {
-		t.Skipf("no loopback listener: %v", fh.err)
+	if l, err := theHostileListener(); l == nil {
+		t.Skipf("no loopback listener: %v", err)
 	}
 	// at most ~200 connections per second and worker: every connection leaves a TIME-WAIT socket behind for a minute,
 	// and the machine is shared
-	fh.mu.Lock()
-	if d := 5*time.Millisecond - time.Since(fh.last); d > 0 {
+	if d := 5*time.Millisecond - time.Since(fuzzLast); d > 0 {
 		time.Sleep(d)
 	}
-	fh.last = time.Now()
-	fh.segs = segs
-	fh.mu.Unlock()
-	hs := fh.hs
-	hs.mu.Lock()
-	base, baseAcc := hs.finished, hs.accepted
-	hs.mu.Unlock()
+	fuzzLast = time.Now()
+	hs := newHostileServerSeg(func(int) []segment { return segs })
+	defer hs.close()
 	pull(hs.Addr)
-	if !hs.waitServed(base+1, 12*time.Second) && hs.attempts() > baseAcc {
+	if !hs.waitServed(1, 12*time.Second) && hs.attempts() >= 1 {
 		if spin, stack := spinningGoroutine(marker, 4, time.Second); spin {
 			t.Fatalf("FUZZ-VIOLATION sig=client-session-spins %s", head(stack, 1500))
 		}
